@@ -57,7 +57,7 @@ pub struct C12;
 /// the element types the checks run at. The serialisation round trip is written against the concrete types, so
 /// that whatever bounds a changed tree puts on `KMeans<T>: Deserialize` are met (or fail) at f32 / f64, not at a
 /// generic parameter of the harness.
-pub trait Elem: RealNumber + Sum + Serialize {
+pub trait Elem: RealNumber + Sum + Serialize + Send + Sync {
     fn restore_kmeans(m: &KMeans<Self>, how: u8) -> Result<KMeans<Self>, String>;
     /// fit on the chosen matrix back end (via the inherent function or the estimator trait)
     fn kmeans_fit(rows: &[Vec<f64>], backend: u8, params: KMeansParameters, via_trait: bool) -> Result<KMeans<Self>, smartcore::error::Failed>;
@@ -579,6 +579,18 @@ impl C12 {
                                 Err(msg) => rep.fail("panic", "predict", format!("{}: second query panicked: {}", ctx, msg)),
                                 Ok(Err(e)) => rep.fail("predict-error", "predict", format!("{}: second query failed: {}", ctx, e)),
                                 Ok(Ok(lab)) => judge("the same rows in another order", rep, &lab, &src),
+                            }
+                        }
+                        // the model is plain data: asked from another (fresh) thread it must answer the same way
+                        if case.requery > 0 && case.tape.seed % 3 == 0 && rep.violation.is_none() {
+                            rep.count("fault.model-asked-from-another-thread", 1);
+                            let (mref, qref, be) = (&model, &q, case.backend);
+                            let r = std::thread::scope(|sc| sc.spawn(move || guarded(|| T::kmeans_predict(mref, qref, be, false))).join());
+                            match r {
+                                Ok(Ok(Ok(lab))) => judge("asked from another thread", rep, &lab, &ident),
+                                Ok(Ok(Err(e))) => rep.fail("predict-error", "predict", format!("{}: predict on another thread failed: {}", ctx, e)),
+                                Ok(Err(msg)) => rep.fail("panic", "predict", format!("{}: predict on another thread panicked: {}", ctx, msg)),
+                                Err(_) => rep.fail("panic", "predict", format!("{}: predict on another thread panicked", ctx)),
                             }
                         }
                         if case.many > 0 && rep.violation.is_none() {
